@@ -122,6 +122,9 @@ void NiString::Write(NiOStream& stream, const int szSize) {
 
 
 void NiStringRef::Read(NiIStream& stream) {
+#ifdef OUSNIUS_NIFLY_VERIF
+	nifly_verif_str_hook(this, 0);
+#endif
 	if (stream.GetVersion().File() < V20_1_0_3) {
 		std::array<char, 2048 + 1> buf{};
 
@@ -141,6 +144,9 @@ void NiStringRef::Read(NiIStream& stream) {
 }
 
 void NiStringRef::Write(NiOStream& stream) {
+#ifdef OUSNIUS_NIFLY_VERIF
+	nifly_verif_str_hook(this, 1);
+#endif
 	if (stream.GetVersion().File() < V20_1_0_3) {
 		auto sz = uint32_t(str.length());
 		str.resize(sz);
